@@ -92,6 +92,9 @@ fn build(tier: Tier) -> Vec<Scenario> {
         vec![ReplOne, Map],
         vec![ReplHost, Map, Shuffle],
         vec![Dup, ReplLim2, Swap, ReplLim2, Merge],
+        // (raising the replication again through a forward link - e.g. One then Unlimited - is
+        // rejected loudly at start-up by the engine: "Channel for endpoint ... not registered";
+        // such programs are outside the algebra and are not generated)
     ];
     for p in [3u64, 4] {
         let cfg = JobCfg { layout: Layout::Local(p), batch: BatchMode::fixed(1), capacity: 0 };
